@@ -410,6 +410,43 @@ func c02Run(c *fw.Ctx, b fw.Batch) {
 				}
 			}
 		}
+		// Extend called on a value RETURNED BY DETECTION (a text result that carries a charset
+		// parameter): whatever the library makes of it, later results must stay valid
+		mimetype.VerifResetTree()
+		for _, sc := range [][2]string{
+			{"<html><head><meta charset=\"koi8-r\"></head><body>first", "<html><body>VERIF-ONRESULT"},
+			{"plain caf\xe9 text", "VERIF-ONRESULT plain text"},
+			{"<?xml version=\"1.0\" encoding=\"iso-8859-5\"?><a/>", "<?xml version=\"1.0\"?><verif-onresult/>"},
+		} {
+			res := lib.Detect([]byte(sc[0]), 3072)
+			probe := []byte(sc[1])
+			extCounter++
+			res.Extend(func(raw []byte, _ uint32) bool {
+				return bytes.Contains(raw, []byte("VERIF-ONRESULT")) || bytes.Contains(raw, []byte("verif-onresult"))
+			}, fmt.Sprintf("application/x-verif-c02-onresult-%d", extCounter), ".c2r")
+			if p := res.Parent(); p != nil {
+				extCounter++
+				p.Extend(func(raw []byte, _ uint32) bool { return bytes.Contains(raw, []byte("VERIF-ONRESULT-PARENT")) }, fmt.Sprintf("application/x-verif-c02-onresult-%d", extCounter), ".c2r")
+			}
+			v := lib.NewValidator(lib.Snapshot())
+			for _, x := range [][]byte{probe, append([]byte("VERIF-ONRESULT-PARENT "), probe...), []byte(sc[0])} {
+				for _, entry := range []string{"Detect", "DetectReader"} {
+					var m *mimetype.MIME
+					var err error
+					pl := c02Case{Kind: "extend-on-result", In: x, Limit: 3072, Entry: entry}
+					key := fw.InputKey(x, 3072, entry+"/extend-on-result")
+					c.Trace(func() (string, any) { return key, pl })
+					if !c.Guard(key, func() any { return pl }, func() { m, err = detect(x, 3072, entry) }) {
+						continue
+					}
+					c.Eval(1)
+					c.Count("results_after_extend_on_a_detection_result", 1)
+					if why := v.Check(m, err); why != "" {
+						c.Violate("invalid-result", key, fmt.Sprintf("%s; after Extend was called on a detection result (%s); input %s; hierarchy %s", why, lib.ChainOf(res), fw.Quote(x, 60), lib.ChainOf(m)), pl)
+					}
+				}
+			}
+		}
 		mimetype.VerifResetTree()
 	case "broad":
 		// the invariant over a broad sample of every other input family
